@@ -247,7 +247,8 @@ class AbstractFieldFormat(object):
         :raises cutplace.errors.FieldValueError: if ``value`` is invalid
         """
         if self.data_format.format == data.FORMAT_FIXED:
-            possibly_stripped_value = value.strip()
+            # Only blanks are padding. Other white space like tabs or no-break spaces is part of the value.
+            possibly_stripped_value = value.strip(" ")
         else:
             possibly_stripped_value = value
         if possibly_stripped_value != "":
